@@ -17,7 +17,7 @@ PROP = dict(
                            "mpt_object_set_string": 10000, "set_string:accepted": 3000, "monitor:string-readbacks-compared": 1000,
                            "mpt_axis_set": 5000, "mpt_line_set": 5000, "mpt_text_set": 5000, "mpt_graph_set": 5000, "mpt_world_set": 5000,
                            "color:wellformed-compared": 1000, "color:refused": 500,
-                           "monitor:read-by-spelling": 100000, "monitor:get-by-prefix": 50000, "monitor:fpoint-grid": 588, "fpoint:accepted": 100, "fpoint:refused": 300, "monitor:foreign-source-assignments": 10000, "foreign:refused": 5000}),
+                           "monitor:read-by-spelling": 100000, "monitor:get-by-prefix": 50000, "monitor:fpoint-grid": 980, "fpoint:accepted": 150, "fpoint:refused": 500, "fpoint:iterator-source": 392, "monitor:twin-comparisons": 100000, "monitor:foreign-source-assignments": 10000, "foreign:refused": 5000}),
               dict(name="c20_cxx", memcheck=500, src=["c20_cxx.cpp"], libs=["mpt++", "mptio", "mptplot", "mptcore"], batch=256, lsan=True,
                    cflags=["-fno-sanitize=vptr"],
                    floors={"object::set": 50000, "set:accepted": 10000, "set:refused": 5000, "monitor:readbacks-compared": 5000,
